@@ -230,7 +230,36 @@ func genCase(t *rapid.T) Case {
 	// some rules get rule-level control comments so that leaking comments matter
 	src := s.Doc(doc)
 	lines := strings.Split(strings.TrimRight(src, "\n"), "\n")
+	// embedded: the rule document sits in a literal block scalar of another document (ConfigMap style, relaxed
+	// mode).  Control comments keep the block's indentation (a less indented one would end the scalar); the
+	// hidden payload lines may start at column 0 - masked, they are whitespace-only lines shorter than the
+	// indentation, which YAML takes for empty lines.
+	embedded := rapid.IntRange(0, 4).Draw(t, "embedded") == 0
+	cind, pind := "", ""
+	if embedded {
+		cind = "    "
+		if rapid.Bool().Draw(t, "payloadIndented") {
+			pind = cind
+		}
+		for i, l := range lines {
+			if l != "" {
+				lines[i] = cind + l
+			}
+		}
+		lines = append([]string{"kind: ConfigMap", "data:", "  rules.yml: |"}, lines...)
+	}
 	idx, kinds := points(lines)
+	if embedded {
+		// not above the block scalar's header
+		var idx2 []int
+		var kinds2 []string
+		for i := range idx {
+			if idx[i] >= 3 {
+				idx2, kinds2 = append(idx2, idx[i]), append(kinds2, "embedded-"+kinds[i])
+			}
+		}
+		idx, kinds = idx2, kinds2
+	}
 	pi := rapid.IntRange(0, len(idx)-1).Draw(t, "point")
 	at, point := idx[pi], kinds[pi]
 	form := rapid.SampledFrom([]string{"line", "next-line", "begin-end", "begin-end", "file", "mixed"}).Draw(t, "form")
@@ -238,7 +267,10 @@ func genCase(t *rapid.T) Case {
 	if form == "file" {
 		rel = "replacement"
 	}
-	relaxed := rapid.IntRange(0, 3).Draw(t, "relaxed") == 0
+	relaxed := rapid.IntRange(0, 3).Draw(t, "relaxed") == 0 || embedded
+	if embedded && form == "file" {
+		form = "begin-end"
+	}
 	c := Case{Form: form, Rel: rel, Relaxed: relaxed, Point: point}
 
 	// the controlling comments are spelled with varying (legal) spacing, the same way in A and B
@@ -252,19 +284,26 @@ func genCase(t *rapid.T) Case {
 		case "line":
 			out := make([]string, 0, len(p.lines))
 			for _, l := range p.lines {
-				out = append(out, l+" "+cLine)
+				out = append(out, cind+l+" "+cLine)
 			}
 			return out
 		case "next-line":
 			var out []string
 			for _, l := range p.lines {
-				out = append(out, cNext, l)
+				out = append(out, cind+cNext, pind+l)
 			}
 			return out
 		case "begin-end":
-			out := []string{cBegin}
-			out = append(out, p.lines...)
-			return append(out, cEnd)
+			out := []string{cind + cBegin}
+			for _, l := range p.lines {
+				if embedded && strings.Contains(l, "ignore/begin") {
+					// kept by pint as a control comment of the form (see genInScalarCase): inside a block
+					// scalar that is content, not excluded text
+					l = strings.Replace(l, "ignore/begin", "ignore/bogus", 1)
+				}
+				out = append(out, pind+l)
+			}
+			return append(out, cind+cEnd)
 		}
 		panic("form")
 	}
